@@ -26,14 +26,14 @@ func verifGeoSubnet(bits int) netip.Prefix {
 // client mapped to the same subnet; a client that opted out with /0 is never served
 // from the subnet-specific cache and gets a /0 upstream query.
 //
-//verif:harness name=H05c-partition tier=quick,thorough bounds="two consecutive IPv4 clients asking the same question, both with or both without the DO bit; GeoIP subnets symbolic with a length from {12, 20, 24}; upstream scope of the first answer symbolic; second client plain, with an own ECS option, or opted out with /0; one-slot caches honouring the agdcache contract" reach=hit,miss,declined,scope-zero maxpaths=100000
+//verif:harness name=H05c-partition tier=quick,thorough bounds="two consecutive IPv4 clients asking the same question, both with or both without the DO bit; GeoIP subnets symbolic with a length from {0 (no subnet known), 12, 20, 24}; upstream scope of the first answer symbolic; second client plain, with an own ECS option, or opted out with /0; one-slot caches honouring the agdcache contract" reach=hit,miss,declined,scope-zero maxpaths=100000
 //verif:assume maphash without collisions between different streams (hosts compared separately); no expiry between the two requests; GeoIP stub
 func VerifC05Partition() {
 	verifPoolMode(1) // released pooled objects (cache requests, cloned messages) are handed back
 	noECS, ecs := &verifCache{}, &verifCache{}
 	mw := verifMW(noECS, ecs)
 	verifSetClock(1 << 40)
-	bits := []int{12, 20, 24}[verifChoice(3)]
+	bits := []int{0, 12, 20, 24}[verifChoice(4)] // 0: GeoIP knows no subnet for the location
 	s1, s2 := verifGeoSubnet(bits), verifGeoSubnet(bits)
 	scope := nondetU8()
 	// clients may set the DNSSEC OK bit (it is part of the cache key, so both ask alike)
